@@ -52,3 +52,15 @@ def replay_generic(env, mm):
         return False
     print('agrees now')
     return True
+
+
+def corpus_cases(pid):
+    """minimised past failures: run first"""
+    d = os.path.join(core.ROOT, 'corpus', pid)
+    out = []
+    if os.path.isdir(d):
+        for f in sorted(os.listdir(d)):
+            if f.endswith('.json'):
+                c = json.load(open(os.path.join(d, f), encoding='utf-8'))
+                out.append({'id': c['id'], 'src': c['src'], 'stdin': c.get('stdin', ''), 'note': c.get('note', '')})
+    return out
